@@ -6,8 +6,8 @@ Emit(name, args) ==
   EmitEdges => PrintT(<<"EDGE", ToJson([from |-> St, act |-> name, args |-> args, to |-> St', res |-> last'.res])>>)
 AMerge == \E t \in LogTypes, k \in 1..2 : \E view \in Views(t) :
              Merge(t, view, k) /\ Emit("Merge", <<t, view, k>>)
-ARewindPatch == \E t \in LogTypes, k \in 1..2, c \in 1..MaxLen : \E view \in Views(t) :
-             c <= Len(srv[t]) /\ RewindPatch(t, c, view, k) /\ Emit("RewindPatch", <<t, c, view, k>>)
+ARewindPatch == \E t \in LogTypes, k \in 1..2, c \in 1..MaxLen, carry \in BOOLEAN : \E view \in Views(t) :
+             c <= Len(srv[t]) /\ RewindPatch(t, c, view, k, carry) /\ Emit("RewindPatch", <<t, c, view, k, carry>>)
 MCNext == AMerge \/ ARewindPatch
 View == <<srv>>
 =============================================================================
